@@ -12,6 +12,7 @@ from mc.engine import Res, digest, viol
 from mc.oracle import rank_rational, two_sided_normal_p
 
 ID = "C12"
+CHUNK = 150
 RULE = ("states = (multiset of <=N respondents (x multiplicity 1|3 on the 2x2 schema), plain-"
         "subtotal config) incl. every degenerate table; non-trivial = rank >= 2 and at least "
         "one finite non-zero z-score; distinct = distinct z-score tensors")
